@@ -619,6 +619,56 @@ class _NewNode(SVal):
         SVal.__init__(self, new_node(kw["__node"], kw["__conf"]))
 
 
+# ---- detect_duplicates ---------------------------------------------------------------------------------------------------------------------
+occurrences = z3.Function("occurrences_in_expanded_config", Id, I)
+
+
+class _Counter(Sym):
+    """TRUSTED clause of collections.Counter(seq): `.items()` enumerates each distinct element x of seq once, paired with
+    occ(x); occ(x) >= 1 iff x occurs, occ(x) > 1 iff x occurs at two different indices (all the body relies on).  The
+    clause is evaluated on the real collections.Counter by harness/conformance.py."""
+
+    def __init__(self, seq):
+        if not isinstance(seq, SSeq):
+            raise ContractBindError("Counter expected over the list of configured ids")
+        self.seq = seq
+        i, j = bv("i!k", I), bv("j!k", I)
+        inr = lambda k: z3.And(k >= 0, k < seq.n)  # noqa: E731
+        at = lambda k: term(seq.at(k), Id)  # noqa: E731
+        C.assume(z3.ForAll([x], (occurrences(x) >= 1) == z3.Exists([i], z3.And(inr(i), at(i) == x))))
+        C.assume(z3.ForAll([x], (occurrences(x) > 1) == z3.Exists([i, j], z3.And(inr(i), inr(j), i != j, at(i) == x, at(j) == x))))
+
+    def items(self):
+        return SIter(Id, lambda v: occurrences(v) >= 1, lambda v: (SId(v), SInt(occurrences(v))))
+
+
+class DetectDuplicates:
+    """detect_duplicates(expanded_config): raises ValueError iff two entries configure the same node id; this is the
+    summary that `config_from_dict` uses at its call site (there assumed, here proved from the body)."""
+
+    module = "tawazi._dag.dag"
+    qualname = "detect_duplicates"
+    loops = {}
+
+    def namespace(self):
+        return {"Counter": _Counter}
+
+    def run(self, f, case):
+        ncfg = C.fresh("n_config", I)
+        C.assume(ncfg >= 0)
+        expanded = SSeq(ncfg, lambda i: (SId(cfg_id(i)), _Conf(i)), list, "expanded_config")
+        i, j = bv("i!c", I), bv("j!c", I)
+        dup = z3.Exists([i, j], z3.And(i >= 0, j >= 0, i < ncfg, j < ncfg, i != j, cfg_id(i) == cfg_id(j)))
+        try:
+            r = f(expanded)
+        except ValueError:
+            C.check(dup, "detect_duplicates.exceptional.C07.ValueError_only_if_two_entries_configure_the_same_node", {"C07", "C14"}, "post")
+            return "raises ValueError"
+        C.check(z3.Not(dup), "detect_duplicates.post.C07.normal_return_only_if_every_node_is_configured_at_most_once", {"C07"}, "post")
+        C.check(z3.BoolVal(r is None), "detect_duplicates.post.returns_nothing", {"C07"}, "post")
+        return "return"
+
+
 # ---- _cache_results -----------------------------------------------------------------------------------------------------------------------
 class CacheResults:
     """BaseDAGExecution._cache_results: what is pickled is the results of the run, minus the nodes of cache_deps_of
